@@ -3,6 +3,7 @@ package main
 import (
 	"fmt"
 	"go/token"
+	"go/types"
 	"regexp"
 	"sort"
 	"strings"
@@ -262,6 +263,129 @@ func splitTopLevel(s string) []string {
 }
 
 func runC27(c *Ctx) {
+	c.Rule("C27.ALIGN", "PAIR: in internal/edgesync a slice is indexed by the position variable of a loop over another slice only if the two are known to have the same length (one was made with len() of the other, both were made with the same length, or they are the same slice) — two lists that merely look parallel (all entries vs the candidate subset) go out of step and attribute one file's state to another")
+	{
+		n := 0
+		lenOf := func(v ssa.Value) ssa.Value { // the slice whose len() sized v at its make site
+			if mk, ok := v.(*ssa.MakeSlice); ok {
+				if cl, ok := mk.Len.(*ssa.Call); ok {
+					if b, ok := cl.Call.Value.(*ssa.Builtin); ok && b.Name() == "len" {
+						return cl.Call.Args[0]
+					}
+				}
+				return mk.Len
+			}
+			return nil
+		}
+		root := func(v ssa.Value) ssa.Value {
+			for i := 0; i < 6; i++ {
+				switch x := v.(type) {
+				case *ssa.Slice:
+					if x.Low == nil && x.High == nil {
+						v = x.X
+						continue
+					}
+				case *ssa.UnOp:
+					if a, ok := x.X.(*ssa.Alloc); ok && x.Op == token.MUL {
+						var only ssa.Value
+						k := 0
+						for _, r := range *a.Referrers() {
+							if st, ok := r.(*ssa.Store); ok && st.Addr == ssa.Value(a) {
+								k++
+								only = st.Val
+							}
+						}
+						if k == 1 {
+							v = only
+							continue
+						}
+					}
+				}
+				break
+			}
+			return v
+		}
+		sameLen := func(a, b ssa.Value) bool {
+			a, b = root(a), root(b)
+			if a == b {
+				return true
+			}
+			la, lb := lenOf(a), lenOf(b)
+			if la != nil && root(la) == b {
+				return true
+			}
+			if lb != nil && root(lb) == a {
+				return true
+			}
+			if la != nil && lb != nil && root(la) == root(lb) {
+				return true
+			}
+			return false
+		}
+		for _, fn := range c.P.FuncsIn("internal/edgesync") {
+			for _, sub := range append([]*ssa.Function{fn}, allAnon(fn)...) {
+				for _, in := range instrs(sub, false) {
+					ia, ok := in.(*ssa.IndexAddr)
+					if !ok {
+						continue
+					}
+					if _, isSl := ia.X.Type().Underlying().(*types.Slice); !isSl {
+						continue
+					}
+					// index = the position phi of a range loop over some slice G
+					idxv := ia.Index
+					if bo, ok := idxv.(*ssa.BinOp); ok && bo.Op == token.ADD {
+						idxv = bo.X // go/ssa: the body of a range loop uses phi+1
+					}
+					ph, ok := idxv.(*ssa.Phi)
+					if !ok || ph.Comment != "rangeindex" {
+						continue
+					}
+					// find the loop bound: `phi+1 < len(G)` in the loop block
+					var ranged ssa.Value
+					for _, in2 := range ph.Block().Instrs {
+						if bo, ok := in2.(*ssa.BinOp); ok && bo.Op == token.LSS {
+							if cl, ok := bo.Y.(*ssa.Call); ok {
+								if b, ok := cl.Call.Value.(*ssa.Builtin); ok && b.Name() == "len" {
+									ranged = cl.Call.Args[0]
+								}
+							}
+						}
+					}
+					if ranged == nil {
+						// the bound is computed before the loop: t = len(G)
+						for _, in2 := range ph.Block().Instrs {
+							if bo, ok := in2.(*ssa.BinOp); ok && bo.Op == token.LSS {
+								if cl, ok := bo.Y.(*ssa.Call); ok {
+									_ = cl
+								}
+								if cl, ok := bo.Y.(*ssa.Call); !ok || cl == nil {
+									if pc, ok := bo.Y.(*ssa.Call); ok {
+										_ = pc
+									}
+								}
+								if lenCall, ok := bo.Y.(ssa.Value); ok {
+									if cl, ok := lenCall.(*ssa.Call); ok {
+										if b, ok := cl.Call.Value.(*ssa.Builtin); ok && b.Name() == "len" {
+											ranged = cl.Call.Args[0]
+										}
+									}
+								}
+							}
+						}
+					}
+					if ranged == nil {
+						continue
+					}
+					n++
+					c.Check(sameLen(ia.X, ranged), "C27.ALIGN", fmt.Sprintf("%s|index-of-other-slice#%d", sub.Name(), n), ia.Pos(), "indexed slice and ranged slice have the same length by construction", sub.Name()+" indexes one slice with the position of a loop over another whose length is not tied to it: when the two lists differ (all reconcile entries vs the candidates among them) the staleness of one file is recorded against a different file — a file the hub lost is vouched for as present, and another one's receipt is deleted")
+				}
+			}
+		}
+		if n == 0 {
+			c.Triv("C27.ALIGN", "internal/edgesync|indexed-by-position", 0, "no slice is indexed by the position of a loop over another slice (the self-validation mutant keeps this rule exercised)")
+		}
+	}
 	p := c.P
 	c.Rule("C27.TABLE", "SQLT+AGREE: the (from -> to) relation extracted from every INSERT/UPDATE that sets sync_ledger.state (states bound by placeholder position to constants) is a subset of the documented transition relation; nothing leaves 'synced'; every state-setting UPDATE carries a state guard; the guard's states equal the states passed to checkTransition; all such statements live in *Ledger methods")
 	c.Rule("C27.TYPESTATE", "FLOW: after MarkInFlight succeeded in sendOne the row is in_flight, so every ledger transition reachable afterwards (directly or through agent helpers) must accept in_flight as a source state; transitions applied to reconcile results must accept pending")
